@@ -62,28 +62,36 @@ def batch_if(exprs, defines=()):
 
 def batch_expand(cases, with_if=True):
     """cases: list of (defines, invocation) with defines = list of '#define' payloads ("F(x) x+1").
-    One gcc process.  Returns per case dict(text=str|None, diag=[...], if_value=bool|None, if_diag=[...]).
+    Returns per case dict(text=str|None, diag=[...], if_value=bool|None, if_diag=[...]).
     text is the raw expansion text between the markers (None if a marker went missing: some
-    earlier segment swallowed it - the caller must re-judge those alone)."""
-    segs = []
-    prev = []
-    for i, (defs, inv) in enumerate(cases):
-        seg = [f"#undef {n}" for n in prev]
-        names = []
-        for d in defs:
-            seg.append(f"#define {d}")
-            names.append(re.match(r"[A-Za-z_]\w*", d).group(0))
-        seg.append(f"S{i}_ {inv} E{i}_")
-        segs.append(seg)
-        if with_if:
-            segs.append([f"#if {inv}", f"T_{i}_", "#else", f"F_{i}_", "#endif"])
-        prev = names
-    out, diags = run_batch(segs)
+    earlier segment swallowed it - the caller must re-judge those alone).
+    The `#if <invocation>` questions go to a *second* gcc process: gcc reports an error inside a macro
+    expansion at the line of the macro definition, which would otherwise be taken for a diagnostic of
+    the definition / plain expansion of the same case."""
+    def build(kind):
+        segs = []
+        prev = []
+        for i, (defs, inv) in enumerate(cases):
+            seg = [f"#undef {n}" for n in prev]
+            names = []
+            for d in defs:
+                seg.append(f"#define {d}")
+                names.append(re.match(r"[A-Za-z_]\w*", d).group(0))
+            if kind == "expand":
+                seg.append(f"S{i}_ {inv} E{i}_")
+            else:
+                seg += [f"#if {inv}", f"T_{i}_", "#else", f"F_{i}_", "#endif"]
+            segs.append(seg)
+            prev = names
+        return segs
+
+    out, diags = run_batch(build("expand"))
+    ifv, ifd = {}, {}
+    if with_if:
+        out2, ifd = run_batch(build("if"))
+        for m in re.finditer(r"\b([TF])_(\d+)_", out2):
+            ifv[int(m.group(2))] = m.group(1) == "T"
     res = []
-    step = 2 if with_if else 1
-    ifv = {}
-    for m in re.finditer(r"\b([TF])_(\d+)_", out):
-        ifv[int(m.group(2))] = m.group(1) == "T"
     pos = 0
     for i in range(len(cases)):
         s = out.find(f"S{i}_", pos)
@@ -94,7 +102,7 @@ def batch_expand(cases, with_if=True):
             if e >= 0 and (nxt < 0 or e < nxt):
                 text = out[s + len(f"S{i}_"):e]
                 pos = e
-        d_if = diags.get(step * i + 1, []) if with_if else []
-        res.append({"text": text, "diag": diags.get(step * i, []),
+        d_if = ifd.get(i, []) if with_if else []
+        res.append({"text": text, "diag": diags.get(i, []),
                     "if_value": None if (d_if or not with_if) else ifv.get(i), "if_diag": d_if})
     return res
